@@ -15,6 +15,7 @@ Model/Balance.lean, Model/Register.lean and Model/Group.lean.
 | `zipItems`               | `price_lookup_ctx.convert_prices(txn).zip(&txn.posts)` of `register_engine`: the converted account key is `(conv_acctn.comm, orig_p account)`, amount and rate are the converted ones, `post` is `orig_p` |
 | `convertedStream`        | that zip for every transaction, in order (the input of `Tackler.registerEngine`, which sorts by the *original* key `orig_p.acctn` and accumulates under the *converted* key) |
 | `reportCtx`              | the `self.report_settings.price_lookup.make_ctx(&txn_data.txns, report_commodity, &cfg.price.price_db)` every reporter's `write_txt_report` starts with: **one context, built from all transactions of the report**, used for the figures *and* for the metadata block (`write_price_metadata(cfg, writer, &price_lookup_ctx)`) |
+| `registerCommodities`, `reportSettings` | the commodity side of `Settings::try_from` (`report.commodity`, then `parse_price_entry` per price-file line): `inner_get_or_create_commodity` |
 | `balanceConv`, `PricedBalance`, `balanceReport` | `BalanceReporter::write_txt_report`: `Balance::from(title, txn_data, &price_lookup_ctx, …)` and the metadata of the same context |
 | `registerConv`, `PricedRegister`, `registerReport` | `RegisterReporter::write_txt_report`: `accumulator::register_engine(&txn_data.txns, &price_lookup_ctx, …)` |
 | `groupBalancesConv`, `balgrpConvBy`, `balgrpConv`, `PricedGroups`, `balgrpReport` | `BalanceGroupReporter::write_txt_report`: the context is built **once, from all transactions** (before `accumulator::balance_groups`), and handed to `Balance::from_iter` of every group — not one context per group |
@@ -121,6 +122,28 @@ deriving Repr, DecidableEq
 def balgrpReport (st : Settings) (sel : BalRow → Bool) (g : GroupBy) (tz : Time.JournalTz)
     (lk : PriceLookup) (rc : Option String) (db : List PriceEntry) (txns : List Txn) : Outcome PricedGroups :=
   (balgrpConv st sel g tz lk rc db txns).map (fun gs => ⟨metadata (reportCtx lk rc db txns), gs⟩)
+
+/-! ### the settings the reports run with
+
+`Settings::try_from` resolves `report.commodity` through `inner_get_or_create_commodity` and, when a price lookup is
+set, `parse_price_entry` does the same for base and target commodity of every price-file entry, in file order.  So the
+report commodity is a known commodity when `Balance::bubble_up_acctn` asks `get_txn_account(parent, comm)` for a
+missing parent of a *converted* account (whose commodity is the report commodity).  In strict mode an undeclared
+commodity fails the configuration. -/
+
+def registerCommodities (st : Settings) : List String → Outcome Settings
+  | [] => .ok st
+  | c :: rest =>
+    match st.getOrCreateCommodity (some c) with
+    | .ok (_, st') => registerCommodities st' rest
+    | .err => .err
+    | .undef => .undef
+
+/-- the commodity part of `Settings::try_from` for the price configuration (`es`: price-file entries in file order) -/
+def reportSettings (st : Settings) (lk : PriceLookup) (rc : Option String) (es : List PriceEntry) : Outcome Settings :=
+  registerCommodities st
+    ((match rc with | some c => [c] | none => []) ++
+     (if lk = .none then [] else es.flatMap (fun e => [e.base, e.target])))
 
 end Priced
 end Tackler
